@@ -13,7 +13,7 @@
 (***************************************************************************)
 EXTENDS Naturals, Sequences, FiniteSets, TLC
 
-CONSTANTS MaxRows, MaxW, SelMenu, WireMode, InitMode, SortPI
+CONSTANTS MaxRows, MaxW, SelMenu, WireMode, InitMode, SortPI, TailIgnored
 
 MCBaseList == <<0, 1, 2, 3, 4, 3>>
 MCScalarBytes(s) == 64          \* worst case: every byte needs two
@@ -21,7 +21,8 @@ MCIntBytes(v) == 9              \* worst case
 MCCanonical(s) == s < 90
 
 C == INSTANCE Compress WITH BaseList <- MCBaseList, ScalarBytes <- MCScalarBytes,
-                            IntBytes <- MCIntBytes, Canonical <- MCCanonical
+                            IntBytes <- MCIntBytes, Canonical <- MCCanonical,
+                            TailIgnored <- TailIgnored
 
 VARIABLE c
 
@@ -174,12 +175,12 @@ Bounded ==
     \A m \in Malformed(h) \cup Sparse(h) \cup {h, WithTail(h)} : \A max \in Caps :
        C!WorkBounded(C!Decompress(m, max).work, max)
 
-(* RejectsTrailing: the property text asks that a description that carries
-   trailing data is rejected.  The container is modelled as the code reads
-   it -- the inflater stops at the end of the deflate stream and the tail is
-   never inspected -- so this invariant FAILS for a non-empty tail: the known
-   finding {compile_with_compressed, tail-after-deflate-stream}.  It is
-   checked by its own configuration and reported separately. *)
+(* RejectsTrailing: a description followed by bytes after the deflate stream
+   is rejected.  Holds for the code as it is (TailIgnored = FALSE).  With
+   TailIgnored = TRUE -- the container as the code read it before the fix:
+   the inflater stops at the end of the stream and the tail is never
+   inspected -- it FAILS: the finding {compile_with_compressed,
+   tail-after-deflate-stream}, kept as a self-test configuration. *)
 RejectsTrailing ==
   \A h \in Honest(TRUE) : \A max \in AmpleCaps :
      ~C!Decompress(WithTail(h), max).ok
